@@ -8,7 +8,6 @@ pub open spec fn max0(x: int) -> int { if x > 0 { x } else { 0 } }
 pub open spec fn clamp(x: int, hi: int) -> int { if x < 0 { 0 } else if x > hi { hi } else { x } }
 
 /// Shin & Lee (RTSS'03), periodic resource model Γ(Π=p, Θ=q), in the paper's notation
-pub open spec fn ceil_div(a: int, b: int) -> int { (a + b - 1) / b }
 pub open spec fn sbf_shin_lee(p: int, q: int, t: int) -> int {
     let k0 = ceil_div(t - (p - q), p);
     let k = if k0 > 1 { k0 } else { 1 };
@@ -33,13 +32,6 @@ pub proof fn lemma_nf(p: int, q: int, dl: int, k: int, y: int)
     lemma_mul_nonnegative(p, k); lemma_mul_nonnegative(q, k);
     assert(k * p == p * k) by { lemma_mul_is_commutative(p, k); }
     lemma_fundamental_div_mod_converse(t - (p - q), p, k, y);
-}
-pub proof fn lemma_decompose(p: int, x: int) -> (r: (int, int))
-    requires p >= 1, x >= 0
-    ensures r.0 >= 0, 0 <= r.1 < p, x == p * r.0 + r.1, r.0 == x / p, r.1 == x % p
-{
-    lemma_fundamental_div_mod(x, p); lemma_mod_bound(x, p); lemma_div_pos_is_pos(x, p);
-    (x / p, x % p)
 }
 #[verifier::spinoff_prover]
 pub proof fn lemma_sbf_step(p: int, q: int, dl: int, t: int)
